@@ -83,6 +83,21 @@ pub fn crypto_kx_keypair() -> (PublicKey, SecretKey) {
     (pk, sk)
 }
 
+/// Refuses an all-zero shared secret, which results from a low-order peer
+/// public key (as libsodium does).
+fn check_shared_secret(shared_secret: &[u8; CRYPTO_SCALARMULT_BYTES]) -> Result<(), Error> {
+    use subtle::ConstantTimeEq;
+    if shared_secret
+        .ct_eq(&[0u8; CRYPTO_SCALARMULT_BYTES])
+        .unwrap_u8()
+        == 1
+    {
+        Err(dryoc_error!("invalid public key (weak shared secret)"))
+    } else {
+        Ok(())
+    }
+}
+
 fn crypto_kx(
     x1: &mut SessionKey,
     x2: &mut SessionKey,
@@ -121,6 +136,7 @@ pub fn crypto_kx_client_session_keys(
     let mut shared_secret = [0u8; CRYPTO_SCALARMULT_BYTES];
 
     crypto_scalarmult(&mut shared_secret, client_sk, server_pk);
+    check_shared_secret(&shared_secret)?;
 
     crypto_kx(rx, tx, client_pk, server_pk, shared_secret)
 }
@@ -139,6 +155,7 @@ pub fn crypto_kx_server_session_keys(
     let mut shared_secret = [0u8; CRYPTO_SCALARMULT_BYTES];
 
     crypto_scalarmult(&mut shared_secret, server_sk, client_pk);
+    check_shared_secret(&shared_secret)?;
 
     crypto_kx(tx, rx, client_pk, server_pk, shared_secret)
 }
